@@ -672,7 +672,9 @@ def describe(rep):
         "C04.SUMSET: headline = min-nutrient value of the sum of exactly the nine contributions, taken before display rounding. "
         "C04.FLOOR: c x optimum <= consumed_kcals[m] for every month with c >= 0.9999 is added before both tie-breaking solves, "
         "which solve that model or a copy. C04.CSV: each of the ten columns is np.array(<food>_kcals_equivalent.kcals) of a series "
-        "assigned once. C04.SPLIT: in both arms immediate + new-storage == eaten x conversion. Not decided: solver tolerance; "
+        "assigned once, written on every call (only literal-True flags above the to_csv call, no earlier return). C04.SPLIT: in "
+        "both arms of the month loop - or, for whole-array numpy code, in every feasible combination of its elementwise tests - "
+        "immediate + new-storage == eaten x conversion, one value per month. Not decided: solver tolerance; "
         "equality of the 3-decimal rounded displayed contributions with the unrounded headline."
     )
     rep.assumptions = ["PuLP model.copy() shares the LpVariable objects (values read after the last solve)",
